@@ -221,7 +221,7 @@ static int w_enabled(int opi)
     case T_CTR: {
         int exotic = o->a >= 3;
         if (!live) return 0;
-        if (exotic && g_mode != MODE_C05) return 0;
+        if (exotic && g_mode != MODE_C05 && !(g_mode == MODE_C14 && CTNULL[o->a])) return 0;   /* (C14: the NULL forms are valid calls and must return 1) */
         if (g_mode == MODE_C06 && o->a > 1) return 0;
         if (exotic && (W.ntweak > 0 || (W.keyidx >= 0 && !is_simple_key(W.keyidx)))) return 0;
         if (W.consumed == 0 && W.nctr == 0) return 1;
